@@ -122,8 +122,10 @@ class MbootCore:
             17: [0],  # security state
             18: [0x11223344, 0x55667788, 0x99AABBCC, 0xDDEEFF00],  # unique id
             22: [5],  # irq notifier pin (writable)
+            0x40: [0xC0DE0040],  # vendor-specific properties outside the host's enumeration (0x40 writable)
+            0xC8: [0x11111111, 0x22222222],
         }
-        self.writable_props = {10, 22}
+        self.writable_props = {10, 22, 0x40}
         self.otp: dict[int, bytes] = {}
         self.fuses: dict[int, bytes] = {}
         self.keys: dict[int, bytes] = {}
